@@ -36,9 +36,9 @@ def construct(case, init_seed):
     else:
         m, o, _ = eng.make_private(**kw)
     ns = {'none': None, 'exp': lambda: ExponentialNoise(o, gamma=0.9), 'step': lambda: StepNoise(o, step_size=2, gamma=0.8),
-          'lambda': lambda: LambdaNoise(o, noise_lambda=lam)}[case['sched_n']]
+          'lambda': lambda: LambdaNoise(o, noise_lambda=lambda k: lam(k))}[case['sched_n']]      # a real lambda, as users write them (not picklable)
     cs = {'none': None, 'exp': lambda: ExponentialGradClip(o, gamma=0.9),
-          'step': lambda: StepGradClip(o, step_size=2, gamma=0.8), 'lambda': lambda: LambdaGradClip(o, scheduler_function=lam)}[case['sched_c']]
+          'step': lambda: StepGradClip(o, step_size=2, gamma=0.8), 'lambda': lambda: LambdaGradClip(o, scheduler_function=lambda k: lam(k))}[case['sched_c']]
     return dict(model=m, opt=o, eng=eng, gen=gen, crit=crit, ns=ns() if ns else None, cs=cs() if cs else None)
 
 
